@@ -29,6 +29,7 @@ let run lines =
   | "spec04" -> Model.run_spec04 lines
   | "conc" -> Model.run_conc_script lines
   | "raft" -> Model.run_raft lines
+  | "spec01" -> Model.run_spec01 lines
   | m -> failwith ("unknown mode " ^ m)
 
 let flush_script acc =
